@@ -54,3 +54,30 @@ def wf_ring(s):
     return (s.k >= 0 and s.enabled == (s.k > 0) and len(s._q) <= s.k
             and forall((x, 'str'), x in s._ref, s._ref[x] > 0)
             and implies(not s.enabled, len(s._q) == 0 and len(s._ref) == 0))
+
+
+# ---------------------------------------------------------------- C17: scheduler
+
+@spec
+def consec_of(sched, a):
+    return sched["consec_turns"].get(a, 0)
+
+
+@spec
+def is_elig(sched, mct, a):
+    return consec_of(sched, a) < mct
+
+
+@spec
+def tier_of(sched, now, aging_ms, a):
+    return ite(aging_ms > 0, ite(now - sched["last_ran_ms"].get(a, 0) < 0, 0, now - sched["last_ran_ms"].get(a, 0)) // ite(aging_ms > 0, aging_ms, 1), 0)
+
+
+@spec
+def mct_of(cfg):
+    return cfg.get("max_consecutive_turns", 1000000000)
+
+
+@spec
+def aging_of(cfg):
+    return cfg.get("aging_ms", 200)
